@@ -304,7 +304,7 @@ class TrajectoryCalc:
         height_at_zero = math.sin(self.look_angle) * distance_feet
 
         iterations_count = 0
-        zero_finding_error = _cZeroFindingAccuracy * 2
+        zero_finding_error = math.inf  # nothing simulated yet: no accuracy, however loose or strict, is met
         # x = horizontal distance down range, y = drop, z = windage
         while zero_finding_error > _cZeroFindingAccuracy and iterations_count < _cMaxIterations:
             # Check height of trajectory at the zero distance (using current self.barrel_elevation)
